@@ -20,6 +20,7 @@ RULE = ("Random event dictionaries: every subset/order of data/event/id/retry; d
         "of 1-6 events through the real ASGI (virtual time, pings interleaved) and WSGI (thread relay, 20 ms pings) SendEventResponse. "
         "Non-trivial = data contains a line/paragraph separator, is empty, or starts with space/colon, or the event lacks data; distinct = "
         "(event dict, charset).")
+RULE += ' Also: the same dict object yielded repeatedly, re-iterable producers served twice by one response object, data lines of 70 000 characters, a WSGI client that takes several ping intervals per chunk.'
 ASSUMPTIONS = [
     "data is compared modulo one trailing line terminator (the statement does not say whether 'a\\n' has one or two lines)",
     "events without a data key dispatch nothing by the standard; for them only the id/retry side effects and 'no event fired' are checked",
